@@ -292,28 +292,30 @@ Section Reader.
     | Some (Const c) => Raise IOErr      (* reads hel bytes at file position c: not a header array *)
     | None => Raise OtherErr
     end.
-  (* variant_headers[k][index] after read_variant_headers(include_padding) *)
-  Definition rd_variant_elem (tpl : list (Z * tval)) (include_padding : bool) (o index : Z) : outcome Z :=
+  (* variant_headers[k][index] after read_variant_headers(include_padding); m = the (cached) unstructured mask *)
+  Definition rd_variant_elem (m : outcome (list Z)) (include_padding : bool) (o index : Z) : outcome Z :=
     if hx_rd_use_mask (f_is3d F) rd_structured include_padding then
-      bind (rd_mask tpl) (fun present =>
+      bind m (fun present =>
         match nth_error present (Z.to_nat index) with Some p => rd_value o p | None => Raise IndexErr end)
     else rd_value o index.
-  Definition rd_resolve (tpl : list (Z * tval)) (load_all : bool) (index : Z) (v : tval) : outcome Z :=
+  Definition rd_resolve (m : outcome (list Z)) (load_all : bool) (index : Z) (v : tval) : outcome Z :=
     match v with
     | Const c => Return c
-    | Off o => if hx_rd_via_arrays load_all rd_structured then rd_variant_elem tpl false o index
+    | Off o => if hx_rd_via_arrays load_all rd_structured then rd_variant_elem m false o index
                else rd_word (hx_rd_word_off o index)
     end.
   (* gen_trace_header(index)[f] *)
   Definition read_field (load_all : bool) (index f : Z) : outcome Z :=
     if negb (hx_rd_index_ok index (f_tracecount F)) then Raise IndexErr else
     bind rd_template (fun tpl =>
-      match assocZ f tpl with Some v => rd_resolve tpl load_all index v | None => Raise OtherErr end).
+      let m := rd_mask tpl in
+      match assocZ f tpl with Some v => rd_resolve m load_all index v | None => Raise OtherErr end).
   (* gen_trace_header(index) *)
   Definition gen_trace_header (load_all : bool) (index : Z) : outcome (list (Z * Z)) :=
     if negb (hx_rd_index_ok index (f_tracecount F)) then Raise IndexErr else
     bind rd_template (fun tpl =>
-      mapM (fun kv => bind (rd_resolve tpl load_all index (snd kv)) (fun x => Return (fst kv, x))) tpl).
+      let m := rd_mask tpl in
+      mapM (fun kv => bind (rd_resolve m load_all index (snd kv)) (fun x => Return (fst kv, x))) tpl).
   (* get_tracefield_1d(f): read_variant_headers(include_padding=True, [f]); variant_headers[f], or the constant repeated *)
   Definition tracefield_1d (f : Z) : outcome (list Z) :=
     bind rd_template (fun tpl =>
@@ -321,7 +323,7 @@ Section Reader.
       | Some (Off o) => mapM (fun p => rd_value o p) (zrange 0 rd_G)
       | Some (Const c) =>                                   (* np.full(.., template[f]); values[~mask] = 0 *)
           let ps := zrange 0 (hx_rd_fill_len (f_hel F)) in
-          if hx_rd_fill_masked (f_is3d F) rd_structured
+          if hx_rd_fill_masked (f_is3d F) rd_structured && negb (c =? 0)   (* filling with 0: the mask is immaterial *)
           then bind (rd_mask tpl) (fun present => Return (map (fun p => if memZ p present then c else 0) ps))
           else Return (map (fun _ => c) ps)
       | None => Raise OtherErr
@@ -392,3 +394,12 @@ Definition regular_or_2d (ge : geometry) : Prop :=
    as int32 *)
 Definition np_expected (user : list Z) (ua : Z -> Z -> Z) (ilines xlines : Z -> Z) (n_xl f t : Z) : Z :=
   np_array user ua ilines xlines n_xl f t.
+
+(* an irregular 3D source: n traces sorted inline-major on an n_il x n_xl grid with at least one empty cell, non-zero
+   inline numbers (the reader's presence mask is "stored inline number <> 0") *)
+Definition irregular_ok (mask_field : Z) (n_il n_xl bs0 n : Z) (ili xli : Z -> Z) (h : Z -> Z -> Z) : Prop :=
+  1 <= n_il /\ 1 <= n_xl /\ 1 <= bs0 /\ 1 <= n < n_il * n_xl /\
+  (forall t, 0 <= t < n -> 0 <= ili t < n_il /\ 0 <= xli t < n_xl) /\
+  (forall s t, 0 <= s < t -> t < n -> xli s + ili s * n_xl < xli t + ili t * n_xl) /\
+  (forall t, 0 <= t < n -> h t mask_field <> 0) /\
+  (exists p0, 0 <= p0 < n_il * n_xl /\ forall t, 0 <= t < n -> xli t + ili t * n_xl <> p0).
